@@ -543,6 +543,11 @@ def _match_unicode_identifier(
     return content[pos:end]
 
 
+# Escape sequences recognised inside quoted strings (inverse of the emitter's escaping).
+# Any other backslash pair is kept verbatim.
+_ESCAPE_SEQUENCE = re.compile(r'\\(["\\nt])')
+_UNESCAPE_MAP = {'"': '"', "\\": "\\", "n": "\n", "t": "\t"}
+
 # Token patterns (order matters for longest match)
 TOKEN_PATTERNS = [
     # Grammar sentinel (Issue #48 Phase 2) - must come first
@@ -889,11 +894,10 @@ def tokenize(content: str, lenient: bool = False) -> tuple[list[Token], list[Any
                     else:
                         # Single-quoted string: remove " from both ends
                         value = matched_text[1:-1]
-                    # Process escape sequences
-                    value = value.replace(r"\"", '"')
-                    value = value.replace(r"\\", "\\")
-                    value = value.replace(r"\n", "\n")
-                    value = value.replace(r"\t", "\t")
+                    # Process escape sequences in ONE left-to-right pass: sequential
+                    # str.replace passes re-scan their own output, so the two characters
+                    # backslash + "n" (emitted as two backslashes + "n") came back as a newline.
+                    value = _ESCAPE_SEQUENCE.sub(lambda m: _UNESCAPE_MAP[m.group(1)], value)
                 elif token_type == TokenType.NUMBER:
                     # Convert to int or float, but preserve raw lexeme for fidelity (GH#66)
                     if "." in matched_text or "e" in matched_text.lower():
